@@ -1,6 +1,7 @@
 package main
 
 import (
+	"sort"
 	"fmt"
 	"go/token"
 	"go/types"
@@ -254,6 +255,24 @@ func main() {
 			}
 		}
 		fmt.Println("ok", n)
+	case "census":
+		sites, _ := rules.LCSites(rc)
+		var ks []string
+		for k := range sites {
+			ks = append(ks, k)
+		}
+		sort.Strings(ks)
+		for _, k := range ks {
+			fmt.Printf("\t%q: %q,\n", k, "reviewed "+sites[k])
+		}
+	case "lc":
+		rules.LC(rc, 0)
+		for _, o := range s.Obs {
+			if o.Verdict != core.OK {
+				fmt.Println(o.V, o.Rule, o.Key, o.Pos, "::", o.Detail)
+			}
+		}
+		fmt.Println(len(s.Obs))
 	case "k1w":
 		rules.K1w(rc, nil, 0)
 		for _, o := range s.Obs {
